@@ -105,7 +105,11 @@ def onOp (j : J) (op : String) : J :=
     | [sid, hex] =>
       if natOf sid == some (peerCtlSid j.server) &&
           (hex == "000400" || hex == "00" || hex == "0400" || hex == "070100" || hex == "000400070100" || hex == "0400070100")
-      then j else { j with unknown := true }
+      then j
+      -- an (empty) DATA frame behind SETTINGS on the control stream: H3_FRAME_UNEXPECTED (RFC 9114 §7.2.1)
+      else if natOf sid == some (peerCtlSid j.server) && (hex == "0004000000" || hex == "0000") then
+        { j with causes := j.causes ++ [.exact "local:261"] }
+      else { j with unknown := true }
     | _ => { j with unknown := true }
   | 'f' :: r =>
     if natOf (String.ofList r) == some (peerCtlSid j.server) then
